@@ -96,6 +96,12 @@ func (e *Exec) jsonStrip(t types.Type, v Value) Value {
 
 func init() {
 	extraIntrinsics = append(extraIntrinsics, func(p *Program) {
+		// C40 and C18 use the exact / abstract models of intr_C40.go (concrete payload literals run through
+		// the real encoding/json; the controller checksum view is four unconstrained bytes); this file's
+		// init runs after that one's and would otherwise replace them.
+		if p.check != nil && (p.check.Property == "C40" || p.check.Property == "C18") {
+			return
+		}
 		I := p.intrinsics
 		I["encoding/json.Marshal"] = func(e *Exec, fr *frame, args []Value) Value {
 			ifc := args[0].(Iface)
